@@ -315,6 +315,12 @@ class Bench:
             if r.reason == 'exceeds capacity':
                 mexp = self._contents_vessel(name, contents)
                 mexp.cap = M.parse_quantity(cap)[0]
+            if r.reason == 'negative quantity':
+                # a negative amount below the library's own resolution is zero for the library
+                for sname, q in contents:
+                    value, unit = M.parse_quantity(q)
+                    if value < 0 and abs(W.msubs[sname].amount_from(value, unit)) < 20 * W.q_amt(sname):
+                        status = 'dont_care'
         if margin is not None and mexp is not None:
             band = self.band_cap(mexp)
             if margin == 0 and self.exact_ok(mexp):
@@ -1028,6 +1034,7 @@ class Bench:
         pre = W.alpha_container(t.base)
         status = 'must_accept'
         nv = info = None
+        sure_higher = False
         # conditioning: how far the library's rounding of stored amounts and of the parsed target can move the answer
         cond = W.units.q / c + F(1, 10 ** 6)
         tot_den = W.model.total(pre, den)
@@ -1053,10 +1060,14 @@ class Bench:
                 status = 'dont_care'
             if r.margin is not None and r.reason == 'higher than current' and -r.margin < F(2, 100):
                 status = 'dont_care'
+            # however coarse the target (nanomolar: the parsed target is rounded to 1e-10 base units), a target that exceeds
+            # the current concentration by more than three times that coarseness plus 2 % cannot be reached by adding solvent
+            if r.margin is not None and r.reason == 'higher than current' and cond < F(1, 10) and -r.margin > F(2, 100) + 3 * cond:
+                sure_higher = True
             if r.margin is not None and r.reason == 'exceeds capacity':
                 status = 'must_refuse' if -r.margin > (F(1, 10 ** 4) + 3 * cond) * (pre.cap or 1) else 'dont_care'
         coarse = ill and status == 'must_accept' and cond < F(1, 10)
-        if ill and status != 'dont_care':
+        if ill and status != 'dont_care' and not sure_higher:
             status = 'dont_care'
         kw = {'name': new_name} if new_name else {}
         out = self.call(lambda: t.real.dilute(W.rsubs[solute], conc, W.rsubs[solvent], **kw))
